@@ -100,8 +100,10 @@ Definition msgs_size_v1 (ms : list hmsg) : N :=
 (* Switch for the proposed repair notes/fixes/ohdr-v1-size-field.patch:
    [false] = the code as it is: the "object header size" field is uint32(16 + 8 * number of messages),
              NOT the number of message bytes that follow the prefix;
-   [true]  = repaired: uint32(totalSize - 16) = the message bytes. *)
-Definition v1_size_field_repaired : bool := false.
+   [true]  = repaired: uint32(totalSize - 16) = the message bytes.
+   The tie decides on a probe header which of the two the tree under test implements and compares with
+   enc_ohdr_v1_gen of that variant; the unrepaired variant is reported as finding C11-ohdr-v1-size-field. *)
+Definition v1_size_field_repaired : bool := true.
 
 Definition v1_size_field (repaired : bool) (ms : list hmsg) : N :=
   if repaired then wrap32 (msgs_size_v1 ms) else wrap32 (16 + nmsgs ms * 8).
